@@ -408,8 +408,17 @@ class Recording(np.random.RandomState):
 # 0-d / scalar forms, F-ordered and non-contiguous arrays
 
 
-MAT_FORMS = ["float", "list", "int64", "int32", "F", "intF", "strided", "intstrided"]
-VEC_FORMS = ["float-col", "list", "int1d", "intcol", "listcol", "strided", "intstrided", "tuple"]
+MAT_FORMS = ["float", "list", "int64", "int32", "F", "intF", "strided", "intstrided", "int8", "float32", "reversed", "transposed",
+             "tuple"]
+MAT_FORMS_FLOAT = ["float", "float", "F", "strided", "reversed", "transposed", "float32"]
+VEC_FORMS = ["float-col", "list", "int1d", "intcol", "listcol", "strided", "intstrided", "tuple", "int8", "float32", "reversed",
+             "row2d", "introw2d"]
+VEC_FORMS_FLOAT = ["float-col", "float-col", "strided", "reversed", "float32", "row2d"]
+INT_SCALARS = [int, np.int8, np.int16, np.int32, np.int64, np.uint8, np.uint16, np.uint32, np.uint64, np.intp]
+
+
+def f32_exact(vals):
+    return all(F(float(np.float32(float(v)))) == v for v in vals)
 SCALAR_FORMS = ["pyint", "pyfloat", "0d-int", "0d-float", "np-int64", "list1", "int1d"]
 
 
@@ -419,12 +428,22 @@ def is_int_valued(Mx):
 
 def mat_form(Mx, kind):
     """matrix (list of rows of Fractions; integer-valued for the integer kinds) in the requested representation"""
-    if kind in ("float", "F", "strided"):
+    if kind in ("float", "F", "strided", "float32", "reversed", "transposed"):
         ints = [[float(v) for v in r] for r in Mx]
     else:
         ints = [[int(v) for v in r] for r in Mx]
     if kind == "float":
         return np.array(ints, dtype=float)
+    if kind == "float32":
+        return np.array(ints, dtype=np.float32)
+    if kind == "int8":
+        return np.array(ints, dtype=np.int8)
+    if kind == "tuple":
+        return tuple(tuple(r) for r in ints)
+    if kind == "reversed":      # a view with negative strides
+        return np.array([r[::-1] for r in ints[::-1]], dtype=float)[::-1, ::-1]
+    if kind == "transposed":    # a transposed view (F-contiguous, not owning its data)
+        return np.array([list(c) for c in zip(*ints)], dtype=float).T
     if kind == "list":
         return ints
     if kind == "int64":
@@ -444,9 +463,19 @@ def mat_form(Mx, kind):
 
 
 def vec_form(v, kind):
-    ints = [float(t) for t in v] if kind in ("float-col", "strided") else [int(t) for t in v]
+    ints = [float(t) for t in v] if kind in ("float-col", "strided", "float32", "reversed", "row2d") else [int(t) for t in v]
+    if kind == "row2d":         # a 2-D array with ONE ROW
+        return np.array([ints], dtype=float)
+    if kind == "introw2d":
+        return np.array([ints], dtype=np.int64)
     if kind == "float-col":
         return np.array(ints, dtype=float).reshape(-1, 1)
+    if kind == "float32":
+        return np.array(ints, dtype=np.float32)
+    if kind == "int8":
+        return np.array(ints, dtype=np.int8)
+    if kind == "reversed":
+        return np.array(ints[::-1], dtype=float)[::-1]
     if kind == "list":
         return ints
     if kind == "tuple":
@@ -509,14 +538,18 @@ def run(ctx):
     def any_mat(Mx, label):
         if not Mx or not Mx[0]:
             return to_np(Mx)
-        kind = rng.choice(MAT_FORMS if is_int_valued(Mx) else ["float", "float", "F", "strided"])
+        kind = rng.choice(MAT_FORMS if is_int_valued(Mx) and maxabs(Mx) < 100 else MAT_FORMS_FLOAT)
+        if kind == "float32" and not f32_exact(flat(Mx)):
+            kind = "float"
         ctx.count("lssforms:mat=" + kind)
         o = mat_form(Mx, kind)
         owned_all.append((label + ":" + kind, o, snapshot(o)))
         return o
 
     def any_vec(v, label):
-        kind = rng.choice(VEC_FORMS if all(t.denominator == 1 for t in v) else ["float-col", "float-col", "strided"])
+        kind = rng.choice(VEC_FORMS if all(t.denominator == 1 and abs(t) < 100 for t in v) else VEC_FORMS_FLOAT)
+        if kind == "float32" and not f32_exact(v):
+            kind = "float-col"
         ctx.count("lssforms:vec=" + kind)
         o = vec_form(v, kind)
         owned_all.append((label + ":" + kind, o, snapshot(o)))
@@ -525,6 +558,51 @@ def run(ctx):
     def mk_ss(A, C, G, H, mu0=None, S0=None):
         return LinearStateSpace(any_mat(A, "A"), any_mat(C, "C"), any_mat(G, "G"), None if H is None else any_mat(H, "H"),
                                 None if mu0 is None else any_vec(mu0, "mu_0"), None if S0 is None else any_mat(S0, "Sigma_0"))
+
+    def finding(key, what, replay):
+        """a behaviour of the CLEAN code that the hardening rules flag: counted only, until the coordinator lists it"""
+        if key in ctx.known:
+            ctx.spec_fail(key, what, replay)
+            return
+        ctx.count("unlisted-finding:" + key)
+        ctx.extra.setdefault("unlisted_findings", {}).setdefault(key, {"what": what, "replay": replay})
+
+    class Audit:
+        """keeps the bits of every returned array and re-judges them after every later call; aliasing audit"""
+
+        def __init__(self, replay):
+            self.kept, self.replay = [], replay
+
+        def keep(self, label, *arrs):
+            for a_ in arrs:
+                if isinstance(a_, np.ndarray):
+                    self.kept.append((label, a_, a_.copy(), a_.shape))
+
+        def recheck(self, after):
+            for label, a_, bits, shp in self.kept:
+                if a_.shape != shp or not np.array_equal(a_, bits, equal_nan=True):
+                    ctx.spec_fail("result_changed_later", "the result of `%s` changed after the later call `%s`" % (label, after),
+                                  self.replay)
+                    return False
+            return True
+
+        def alias(self, call, results, others, allowed={}):
+            """results: [(name, array)], others: [(name, array)] (inputs, object arrays); earlier results are added"""
+            pool = list(others) + [(lab, a_) for lab, a_, _, _ in self.kept]
+            for q_, (rn, r_) in enumerate(results):
+                if not isinstance(r_, np.ndarray) or r_.size == 0:
+                    continue
+                for rn2, r2_ in results[q_ + 1:]:
+                    if isinstance(r2_, np.ndarray) and r2_.size and np.shares_memory(r_, r2_):
+                        ctx.spec_fail("alias_" + call, "returned %s and %s share memory" % (rn, rn2), self.replay)
+                for on, o_ in pool:
+                    if isinstance(o_, np.ndarray) and o_.size and np.shares_memory(r_, o_):
+                        key = "%s:%s~%s" % (call, rn, on.split("#")[0])
+                        hit = [a_ for a_ in allowed if key.startswith(a_)]
+                        if hit:
+                            finding(allowed[hit[0]], "%s returned by %s shares memory with %s" % (rn, call, on), self.replay)
+                        else:
+                            ctx.spec_fail("alias_" + call, "returned %s shares memory with %s" % (rn, on), self.replay)
 
     # ---- Kalman: finite observation records --------------------------------------------------------
     def kalman_case(A, C, G, H, xh, S0, ys, mode, expect_singular=False, objs=None, tag=None):
@@ -762,6 +840,10 @@ def run(ctx):
             ctx.count("forms:set_state" + ("-same-objects" if again else ""))
             o2 = dict(kn=o1["kn_out"], x=owned["x2"], S=owned["S2"], ys=y2objs, forms=forms + " after-set_state")
             kalman_case(A, C, G, H, x2, S2, ys2, "update", objs=o2, tag="kalman-setstate")
+        if any(isinstance(o, np.ndarray) and o.ndim == 2 and fk.get(nm[:1] if nm.startswith("y") else nm) in ("row2d", "introw2d")
+               and o.shape[0] != 1 for nm, o in owned.items()):
+            finding("input_reshaped_in_place", "a one-row 2-D x_hat / y is reshaped to a column in place by set_state / "
+                    "prior_to_filtered", {"op": "kalman", "forms": forms})
         changed = [nm for nm, o in owned.items() if snapshot(o) != snaps[nm]]
         if changed:
             ctx.spec_fail("kalman_caller_modified", "the filter modified the caller's objects %s" % changed,
@@ -778,9 +860,9 @@ def run(ctx):
 
     def do_stat(kn, kind):
         if kind == "sv-doubling":
-            kn.stationary_values()
+            return kn.stationary_values() if rng.random() < 0.5 else kn.stationary_values("doubling")
         elif kind == "sv-qz":
-            kn.stationary_values(method="qz")
+            return kn.stationary_values(method="qz") if rng.random() < 0.5 else kn.stationary_values("qz")
         elif kind == "K_infinity":
             kn.K_infinity
         elif kind == "Sigma_infinity":
@@ -810,18 +892,74 @@ def run(ctx):
         plan = ["update"] * rng.randint(0, 2) + [rng.choice(STAT_KINDS)]
         for _j in range(rng.randint(3, 7)):
             plan.append(rng.choice(["update", "update", "update", "update", "set-near", "set-near", "set-far", "set-exact",
-                                    "p2f", "f2f", rng.choice(STAT_KINDS)]))
+                                    "p2f", "f2f", "edit-ss", rng.choice(STAT_KINDS)]))
         hist_line, hist_impl, cnt, cache = [], [], 0, False
         hreplay = {"op": "history", "A": ratm(A), "C": ratm(C), "G": ratm(G), "H": ratm(H), "x_hat": rats(xh),
                    "Sigma": ratm(S0), "calls": []}
         ok_hist = True
+        au = Audit(hreplay)
+        KAL_ALLOWED = {"set_state:x_hat~input x_hat": "kalman_set_state_keeps_caller_arrays",
+                       "set_state:Sigma~input Sigma": "kalman_set_state_keeps_caller_arrays",
+                       "stationary_values:Sigma_infinity~cache": "stationary_values_returns_cache",
+                       "stationary_values:K_infinity~cache": "stationary_values_returns_cache"}
+
+        def flush():
+            """emit the history walked so far as one model case and start a new segment at the current state"""
+            nonlocal hist_line, hist_impl, cnt, x0np, S0np
+            if cnt:
+                line = "C12 history %s x=%s S=%s n=%d %s" % (ss_line(A, C, G, H), rats([r_[0] for r_ in fm(x0np)]),
+                                                             ratm(fm(S0np)), cnt, " ".join(hist_line))
+                cases.append(Case(line, "ok " + " ".join(hist_impl), nontrivial=True, cmp=env_cmp(ENV_K, errs_k), tag="history"))
+            hist_line, hist_impl, cnt = [], [], 0
+            x0np, S0np = np.array(kn.x_hat), np.array(kn.Sigma)
+
         for op in plan:
             xcur, Scur = [r_[0] for r_ in fm(kn.x_hat)], fm(kn.Sigma)
+            if op == "edit-ss":
+                # attribute reassignment / in-place edit of the model the filter is built on: later calls must use it
+                flush()
+                A = [list(r_) for r_ in A]
+                G = [list(r_) for r_ in G]
+                if rng.random() < 0.5:
+                    i_, j_ = rng.randrange(n), rng.randrange(n)
+                    v = F(rng.choice([-1, 1]), 16)
+                    A[i_][j_] += v
+                    if ninf(A) >= 1:
+                        A[i_][j_] -= 2 * v
+                    kn.ss.A[i_, j_] = float(A[i_][j_])
+                    hreplay["calls"].append("in place ss.A[%d,%d] = %s" % (i_, j_, rat(A[i_][j_])))
+                else:
+                    G = gen_mat(rng, k, n, den=2, lo=-3, hi=3)
+                    kn.ss.G = to_np(G)
+                    hreplay["calls"].append("ss.G = %s" % ratm(G))
+                hreplay.update({"A_after_edit": ratm(A), "G_after_edit": ratm(G)})
+                owned_all[:] = [e_ for e_ in owned_all if not (isinstance(e_[1], np.ndarray) and np.shares_memory(e_[1], kn.ss.A))]
+                ctx.count("history:edit-ss")
+                if cache:
+                    try:
+                        Kfresh = Kalman(kn.ss).stationary_values()[1]
+                        if not np.allclose(kn.K_infinity, Kfresh, rtol=1e-9, atol=1e-12):
+                            finding("kalman_stationary_cache_stale", "K_infinity / Sigma_infinity keep the values of the model before "
+                                    "ss.A / ss.G were changed (the properties never recompute)", dict(hreplay))
+                        res_ = kn.stationary_values()
+                        au.keep("stationary_values", *res_)
+                        hist_line.append("op%d=stat Sg%d=%s" % (cnt, cnt, ratm(fm(np.array(kn.Sigma_infinity)))))
+                        hist_impl.append("x%d=%s S%d=%s K%d=%s" % (cnt, wire_f(kn.x_hat), cnt, wire_f(kn.Sigma), cnt, wire_f(kn.K_infinity)))
+                        cnt += 1
+                    except (ValueError, LinAlgError):
+                        ok_hist = False
+                        break
+                continue
             if op in STAT_KINDS:
                 xb, Sb = np.array(kn.x_hat), np.array(kn.Sigma)
                 try:
-                    do_stat(kn, op)
+                    res_ = do_stat(kn, op)
                     Sinf, Kinf = np.array(kn.Sigma_infinity), np.array(kn.K_infinity)
+                    if op.startswith("sv-"):
+                        au.alias("stationary_values", [("Sigma_infinity", res_[0]), ("K_infinity", res_[1])],
+                                 [("cache.Sigma_infinity", kn.Sigma_infinity), ("cache.K_infinity", kn.K_infinity),
+                                  ("kn.x_hat", kn.x_hat), ("kn.Sigma", kn.Sigma), ("ss.A", kn.ss.A), ("ss.G", kn.ss.G)], KAL_ALLOWED)
+                        au.keep("stationary_values", *res_)
                 except (ValueError, LinAlgError) as e:
                     ctx.count("history:stat-raised-" + type(e).__name__)
                     ok_hist = False
@@ -849,7 +987,11 @@ def run(ctx):
                         ctx.count("history:set-near-2^-%d" % (d.denominator.bit_length() - 1))
                     xs = gen_vec(rng, n)
                 xnp, Snp = to_np(col(xs)), to_np(Ss)
-                kn.set_state(xnp, Snp)
+                if rng.random() < 0.5:
+                    kn.set_state(xnp, Snp)
+                else:
+                    kn.set_state(Sigma=Snp, x_hat=xnp)
+                au.alias("set_state", [("x_hat", kn.x_hat), ("Sigma", kn.Sigma)], [("input x_hat", xnp), ("input Sigma", Snp)], KAL_ALLOWED)
                 xs, Ss = [r_[0] for r_ in fm(xnp)], fm(Snp)   # the exact doubles handed over
                 ctx.count("history:" + op)
                 hreplay["calls"].append("%s x=%s S=%s" % (op, rats(xs), ratm(Ss)))
@@ -865,14 +1007,21 @@ def run(ctx):
                 hreplay["calls"].append("%s y=%s" % (op, rats(y)) if ys_ else op)
                 o_ = dict(kn=kn, keep=True, ys=[to_np(col(y))] if ys_ else [], forms="history: " + "; ".join(hreplay["calls"]))
                 kalman_case(A, C, G, H, xcur, Scur, ys_, op, objs=o_, tag="kalman-history")
+                au.alias(op, [("x_hat", kn.x_hat), ("Sigma", kn.Sigma)],
+                         [("y", yo_) for yo_ in o_["ys"]] +
+                         [("ss." + nm, v_) for nm, v_ in vars(kn.ss).items() if isinstance(v_, np.ndarray)] +
+                         [("kn." + nm, v_) for nm, v_ in vars(kn).items() if isinstance(v_, np.ndarray) and nm not in ("x_hat", "Sigma")])
                 hist_line.append("op%d=%s" % (cnt, op) + (" y%d=%s" % (cnt, rats(y)) if ys_ else ""))
             hist_impl.append("x%d=%s S%d=%s K%d=%s" % (cnt, wire_f(kn.x_hat), cnt, wire_f(kn.Sigma), cnt,
                                                       wire_f(kn.K_infinity) if cache else "-"))
             cnt += 1
+            # every array handed out so far (states, stationary values) must still hold the bits it had when returned
+            if not au.recheck(hreplay["calls"][-1] if hreplay["calls"] else op):
+                ok_hist = False
+                break
+            au.keep("state after call %d (%s)" % (len(hreplay["calls"]), op), kn.x_hat, kn.Sigma)
         if ok_hist and cnt:
-            line = "C12 history %s x=%s S=%s n=%d %s" % (ss_line(A, C, G, H), rats([r_[0] for r_ in fm(x0np)]),
-                                                         ratm(fm(S0np)), cnt, " ".join(hist_line))
-            cases.append(Case(line, "ok " + " ".join(hist_impl), nontrivial=True, cmp=env_cmp(ENV_K, errs_k), tag="history"))
+            flush()
             ctx.count("history:A-" + akind)
 
     # ---- Kalman: stationary values ------------------------------------------------------------------
@@ -1291,7 +1440,307 @@ def run(ctx):
             mu0[c] = cval if rng.random() < 0.7 else F(rng.randint(-8, 8), 4)
         statdist_case(A, C, G, H, mu0, consts, miss)
 
+    # ---- hardening: histories on ONE LinearStateSpace, retention of every returned result, aliasing audit, ---------
+    # ---- scalar / optional argument forms ----------------------------------------------------------------------------
+    def exp_moments(A, C, G, H, mu0, S0, t):
+        At = mpow(A, t)
+        mx = mm(At, col(mu0))
+        Sx = mm(mm(At, S0), tr(At))
+        Q = mm(C, tr(C))
+        for j_ in range(t):
+            Aj = mpow(A, j_)
+            Sx = madd(Sx, mm(mm(Aj, Q), tr(Aj)))
+        Sy = mm(mm(G, Sx), tr(G))
+        if H is not None:
+            Sy = madd(Sy, mm(H, tr(H)))
+        return mx, mm(G, mx), Sx, Sy
+
+    def int_scalar(v):
+        ty = rng.choice(INT_SCALARS)
+        ctx.count("scalarforms:int=" + ty.__name__)
+        return ty(v)
+
+    def beta_form(b):
+        kinds = ["pyfloat", "np.float64", "np.float32", "0d", "0d-f32"] + (["pyint", "False", "np.int8", "np.uint8", "np.uint64"] if b == 0 else [])
+        kd = rng.choice(kinds)
+        ctx.count("scalarforms:beta=" + kd)
+        return {"pyfloat": float(b), "np.float64": np.float64(float(b)), "np.float32": np.float32(float(b)),
+                "0d": np.array(float(b)), "0d-f32": np.array(float(b), dtype=np.float32), "pyint": 0, "False": False,
+                "np.int8": np.int8(0), "np.uint8": np.uint8(0), "np.uint64": np.uint64(0)}[kd]
+
+    # behaviours of the clean code that the aliasing rule flags: counted as unlisted findings, everything else is a violation
+    ALLOWED_LSS = {"moment_sequence:mu_x~ss.mu_0": "moment_sequence_yields_own_mu_0",
+                   "moment_sequence:Sigma_x~ss.Sigma_0": "moment_sequence_yields_own_Sigma_0",
+                   "moment_sequence:mu_x~moment_sequence t=0": "moment_sequence_yields_own_mu_0",
+                   "moment_sequence:Sigma_x~moment_sequence t=0": "moment_sequence_yields_own_Sigma_0",
+                   "impulse_response:xcoef0~ss.C": "impulse_response_returns_own_C"}
+
+    for _ in range(ctx.n(35, 400)):
+        n, k, m = rng.randint(1, 3), rng.randint(1, 2), rng.randint(1, 2)
+        st = {"A": gen_A(rng, n, rng.choice(["stable", "stable", "tri"])), "C": gen_C(rng, n, m, rng.choice(["full", "full", "rank1"])),
+              "G": gen_mat(rng, k, n, den=2, lo=-3, hi=3),
+              "H": None if rng.random() < 0.3 else gen_H(rng, k, rng.choice(["full", "zero", "any"])),
+              "mu0": gen_vec(rng, n, den=4, lo=-8, hi=8), "S0": gen_psd(rng, n, rng.choice(["full", "low", "zero"]))}
+        # optional arguments omitted / None / positional / keyword
+        how = rng.choice(["positional", "keyword", "omit-defaults"])
+        ctx.count("lsshist:ctor-" + how)
+        if how == "omit-defaults":
+            st["mu0"], st["S0"] = [F(0)] * n, zeros(n, n)
+            if st["H"] is None and rng.random() < 0.5:
+                ss = LinearStateSpace(any_mat(st["A"], "A"), any_mat(st["C"], "C"), any_mat(st["G"], "G"))
+            else:
+                ss = LinearStateSpace(any_mat(st["A"], "A"), any_mat(st["C"], "C"), any_mat(st["G"], "G"),
+                                      None if st["H"] is None else any_mat(st["H"], "H"), None, None)
+        elif how == "keyword":
+            ss = LinearStateSpace(Sigma_0=any_mat(st["S0"], "Sigma_0"), mu_0=any_vec(st["mu0"], "mu_0"),
+                                  H=None if st["H"] is None else any_mat(st["H"], "H"), G=any_mat(st["G"], "G"),
+                                  C=any_mat(st["C"], "C"), A=any_mat(st["A"], "A"))
+        else:
+            ss = mk_ss(st["A"], st["C"], st["G"], st["H"], st["mu0"], st["S0"])
+        calls = []
+        replay = {"op": "lss-history", "A": ratm(st["A"]), "C": ratm(st["C"]), "G": ratm(st["G"]),
+                  "H": ratm(st["H"]) if st["H"] is not None else None, "mu_0": rats(st["mu0"]), "Sigma_0": ratm(st["S0"]),
+                  "ctor": how, "calls": calls}
+        au = Audit(replay)
+        gens = []       # live moment generators: (generator, state at its start, tuples taken)
+
+        def obj_arrays(exclude=()):
+            """every array the instance holds, whatever its attribute is called"""
+            return [("ss." + nm, v_) for nm, v_ in vars(ss).items() if isinstance(v_, np.ndarray) and nm not in exclude]
+
+        def attrs_ok(where):
+            """the object's own arrays still hold the current state"""
+            good = close(fm(ss.A), st["A"], 0) and close(fm(ss.C), st["C"], 0) and close(fm(ss.G), st["G"], 0) and \
+                close(fm(ss.mu_0), col(st["mu0"]), 0) and close(fm(ss.Sigma_0), st["S0"], 0) and \
+                ((ss.H is None) == (st["H"] is None)) and (st["H"] is None or close(fm(ss.H), st["H"], 0))
+            if not good:
+                ctx.spec_fail("lss_state_changed", "A/C/G/H/mu_0/Sigma_0 of the instance changed during `%s`" % where, replay)
+            return good
+
+        for step in range(rng.randint(4, 8)):
+            op = rng.choice(["moments-new", "moments-new", "moments-continue", "statdist", "geosum", "geosum-mu0", "impulse",
+                             "simulate", "replicate", "set-mu0", "set-S0", "set-A", "edit-inplace"])
+            A, C, G, H, mu0, S0 = (st[q] for q in ("A", "C", "G", "H", "mu0", "S0"))
+            ctx.count("lsshist:" + op)
+            if op == "moments-new" or (op == "moments-continue" and not gens):
+                g_ = ss.moment_sequence()
+                kk = rng.randint(1, 3)
+                got = [next(g_) for _q in range(kk)]
+                gens.append([g_, dict(st), kk])
+                calls.append("moment_sequence()[:%d]" % kk)
+                base, t0 = dict(st), 0
+            elif op == "moments-continue":
+                ent = rng.choice(gens)
+                kk = rng.randint(1, 2)
+                got = [next(ent[0]) for _q in range(kk)]
+                base, t0 = ent[1], ent[2]
+                ent[2] += kk
+                calls.append("continue an earlier moment generator for %d more" % kk)
+                op = "moments-continue"
+            if op.startswith("moments"):
+                for q_, tup in enumerate(got):
+                    e = exp_moments(base["A"], base["C"], base["G"], base["H"], base["mu0"], base["S0"], t0 + q_)
+                    sc = F(ENV_X) * max(F(1), maxabs(e[2]), maxabs(e[3]), maxabs(e[0]))
+                    if not all(close(fm(a_), b_, sc) for a_, b_ in zip(tup, e)):
+                        ctx.spec_fail("moment_sequence_history", "tuple t=%d of a moment generator differs from the closed form of "
+                                      "the model it was started on" % (t0 + q_), replay)
+                    au.alias("moment_sequence", [("mu_x", tup[0]), ("mu_y", tup[1]), ("Sigma_x", tup[2]), ("Sigma_y", tup[3])],
+                             obj_arrays(), ALLOWED_LSS)
+                    au.keep("moment_sequence t=%d" % (t0 + q_), *tup)
+                if t0 == 0:
+                    impl = "ok " + " ".join("mx%d=%s my%d=%s Sx%d=%s Sy%d=%s" % (t, wire_f(a), t, wire_f(b), t, wire_f(c), t, wire_f(d))
+                                            for t, (a, b, c, d) in enumerate(got))
+                    cases.append(Case("C12 moments %s mu0=%s S0=%s k=%d" % (ss_line(A, C, G, H), rats(mu0), ratm(S0), len(got)), impl,
+                                      cmp=env_cmp(ENV_X, errs_x), tag="lsshist-moments"))
+            elif op == "statdist":
+                try:
+                    res = ss.stationary_distributions()
+                except (ValueError, LinAlgError):
+                    ctx.count("lsshist:statdist-raised")
+                    continue
+                calls.append("stationary_distributions()")
+                mx, my, Sx, Sy, Syx = (fm(r_) for r_ in res)
+                sc = F(ENV_K) * max(F(1), maxabs(Sx), maxabs(mx))
+                SyR = mm(mm(G, Sx), tr(G))
+                if H is not None:
+                    SyR = madd(SyR, mm(H, tr(H)))
+                g2 = max(F(1), ninf(G)) ** 2
+                if not (close(mm(A, mx), mx, sc) and close(madd(mm(mm(A, Sx), tr(A)), mm(C, tr(C))), Sx, sc) and
+                        close(my, mm(G, mx), sc * g2) and close(Sy, SyR, sc * g2) and close(Syx, mm(G, Sx), sc * g2)):
+                    ctx.spec_fail("stationary_distributions_history", "stationary moments violate the stationarity equations of "
+                                  "the instance's current model", replay)
+                au.alias("stationary_distributions", list(zip(("mu_x", "mu_y", "Sigma_x", "Sigma_y", "Sigma_yx"), res)),
+                         obj_arrays(exclude=("mu_x", "mu_y", "Sigma_x", "Sigma_y", "Sigma_yx")), ALLOWED_LSS)
+                au.keep("stationary_distributions", *res)
+                cases.append(Case("C12 statdist %s mu0=%s" % (ss_line(A, C, G, H), rats(mu0)),
+                                  "ok mx=%s my=%s Sx=%s Sy=%s Syx=%s" % tuple(wire_f(t) for t in res),
+                                  cmp=env_cmp(ENV_K, errs_k), tag="lsshist-statdist"))
+            elif op in ("geosum", "geosum-mu0"):
+                beta = F(0) if rng.random() < 0.25 else F(rng.randint(1, 15), 16)
+                IbA = msub(eye(n), scal(beta, A))
+                inv_ = solve_exact(IbA, eye(n))
+                if inv_ is None or ninf(IbA) * ninf(inv_) > COND_MAX:
+                    continue
+                if op == "geosum-mu0":
+                    xobj, xt = ss.mu_0, list(mu0)           # the instance's own mu_0 as the conditioning vector
+                else:
+                    xt = gen_vec(rng, n, den=4, lo=-8, hi=8)
+                    xobj = vec_form(xt, rng.choice(["float-col", "intcol", "listcol"]) if all(t.denominator == 1 for t in xt) else "float-col")
+                xsnap = snapshot(xobj)
+                bobj = beta_form(beta)
+                Sx_, Sy_ = ss.geometric_sums(bobj, xobj) if rng.random() < 0.5 else ss.geometric_sums(beta=bobj, x_t=xobj)
+                calls.append("geometric_sums(%s as %s, %s)" % (rat(beta), type(bobj).__name__, "ss.mu_0" if op == "geosum-mu0" else rats(xt)))
+                sc = F(ENV_K) * max(F(1), maxabs(fm(Sx_)), maxabs(col(xt))) * max(F(1), ninf(IbA) * ninf(inv_))
+                if Sx_.shape != (n, 1) or not close(mm(IbA, fm(Sx_)), col(xt), sc) or not close(fm(Sy_), mm(G, fm(Sx_)), sc * max(F(1), ninf(G))):
+                    ctx.spec_fail("geometric_sums_history", "S_x does not solve (I - beta A) S_x = x_t for the current model", replay)
+                if snapshot(xobj) != xsnap:
+                    ctx.spec_fail("geometric_sums_overwrites_x_t", "geometric_sums modified the conditioning vector it was given", replay)
+                au.alias("geometric_sums", [("S_x", Sx_), ("S_y", Sy_)], obj_arrays() + [("x_t", xobj)])
+                au.keep("geometric_sums", Sx_, Sy_)
+                cases.append(Case("C12 geosum A=%s G=%s beta=%s x=%s" % (ratm(A), ratm(G), rat(beta), rats(xt)),
+                                  "ok Sx=%s Sy=%s" % (wire_f(Sx_), wire_f(Sy_)), cmp=env_cmp(ENV_K, errs_k), tag="lsshist-geosum"))
+            elif op == "impulse":
+                j = rng.randint(0, 4)
+                jobj = int_scalar(j)
+                xc, yc = ss.impulse_response(jobj) if rng.random() < 0.5 else ss.impulse_response(j=jobj)
+                calls.append("impulse_response(%d as %s)" % (j, type(jobj).__name__))
+                good = len(xc) == j + 1 and len(yc) == j + 1
+                for i_ in range(min(len(xc), len(yc))):
+                    e = mm(mpow(A, i_), C)
+                    sc = F(ENV_X) * max(F(1), maxabs(e))
+                    good = good and close(fm(xc[i_]), e, sc) and close(fm(yc[i_]), mm(G, e), sc * max(F(1), ninf(G)))
+                if not good:
+                    ctx.spec_fail("impulse_response_history", "coefficients are not A^i C / G A^i C of the current model", replay)
+                au.alias("impulse_response", [("xcoef%d" % i_, a_) for i_, a_ in enumerate(xc)] + [("ycoef%d" % i_, a_) for i_, a_ in enumerate(yc)],
+                         obj_arrays(), ALLOWED_LSS)
+                au.keep("impulse_response", *(xc[1:] + yc))
+                cases.append(Case("C12 impulse A=%s C=%s G=%s j=%d" % (ratm(A), ratm(C), ratm(G), j),
+                                  "ok " + " ".join("xc%d=%s" % (i_, wire_f(a_)) for i_, a_ in enumerate(xc)) + " " +
+                                  " ".join("yc%d=%s" % (i_, wire_f(a_)) for i_, a_ in enumerate(yc)),
+                                  cmp=env_cmp(ENV_X, errs_x), tag="lsshist-impulse"))
+            elif op in ("simulate", "replicate"):
+                l = len(H[0]) if H is not None else 0
+                rs = Scripted(rng, lambda: gen_vec(rng, n, den=4, lo=-8, hi=8))
+                if op == "simulate":
+                    ts = rng.randint(1, 5)
+                    tobj = int_scalar(ts)
+                    x_, y_ = ss.simulate(tobj, rs) if rng.random() < 0.5 else ss.simulate(random_state=rs, ts_length=tobj)
+                    calls.append("simulate(%d as %s)" % (ts, type(tobj).__name__))
+                    expect = ["mvn", (m, ts - 1)] + ([(l, ts)] if H is not None else [])
+                    if not check_stream(rs.calls, mu0, S0, expect, "simulate_draws", replay):
+                        continue
+                    xt = col([F(float(t)) for t in rs.calls[0][3]])
+                    w = fm(rs.calls[1][2].reshape(m, ts - 1)) if ts > 1 else [[] for _q in range(m)]
+                    cols_ = [xt]
+                    for t in range(ts - 1):
+                        cols_.append(madd(mm(A, cols_[-1]), mm(C, [[w[q_][t]] for q_ in range(m)])))
+                    xe = [[cols_[t][i_][0] for t in range(ts)] for i_ in range(n)]
+                    ye = mm(G, xe)
+                    if H is not None:
+                        ye = madd(ye, mm(H, fm(rs.calls[2][2].reshape(l, ts))))
+                else:
+                    T, reps = rng.randint(0, 3), rng.randint(1, 3)
+                    Tobj, robj = int_scalar(T), int_scalar(reps)
+                    x_, y_ = ss.replicate(Tobj, robj, rs) if rng.random() < 0.5 else ss.replicate(num_reps=robj, T=Tobj, random_state=rs)
+                    calls.append("replicate(%d as %s, %d as %s)" % (T, type(Tobj).__name__, reps, type(robj).__name__))
+                    per = ["mvn", (m, T)] + ([(l, T + 1)] if H is not None else [])
+                    expect = per * reps + ([(l, reps)] if H is not None else [])
+                    if not check_stream(rs.calls, mu0, S0, expect, "replicate_draws", replay):
+                        continue
+                    fin = []
+                    for j_ in range(reps):
+                        c_ = rs.calls[j_ * len(per):(j_ + 1) * len(per)]
+                        xt = col([F(float(t)) for t in c_[0][3]])
+                        wj = fm(c_[1][2].reshape(m, T)) if T > 0 else [[] for _q in range(m)]
+                        for t in range(T):
+                            xt = madd(mm(A, xt), mm(C, [[wj[q_][t]] for q_ in range(m)]))
+                        fin.append(xt)
+                    xe = [[fin[j_][i_][0] for j_ in range(reps)] for i_ in range(n)]
+                    ye = mm(G, xe)
+                    if H is not None:
+                        ye = madd(ye, mm(H, fm(rs.calls[-1][2].reshape(l, reps))))
+                sc = F(ENV_X) * max(F(1), maxabs(xe), maxabs(ye))
+                if x_.shape != (n, len(xe[0])) or not close(fm(x_), xe, sc) or not close(fm(y_), ye, sc * max(F(1), ninf(G))):
+                    ctx.spec_fail(op + "_history", "%s() path violates the law of the instance's current model on the drawn shocks" % op, replay)
+                au.alias(op, [("x", x_), ("y", y_)], obj_arrays() + [("draw#%d" % q_, c_[-1]) for q_, c_ in enumerate(rs.calls)])
+                au.keep(op, x_, y_)
+            elif op == "set-mu0":
+                st["mu0"] = gen_vec(rng, n, den=4, lo=-8, hi=8)
+                ss.mu_0 = to_np(col(st["mu0"]))
+                calls.append("ss.mu_0 = %s" % rats(st["mu0"]))
+            elif op == "set-S0":
+                st["S0"] = gen_psd(rng, n, rng.choice(["full", "low", "zero"]))
+                ss.Sigma_0 = to_np(st["S0"])
+                calls.append("ss.Sigma_0 = %s" % ratm(st["S0"]))
+            elif op == "set-A":
+                st["A"] = gen_A(rng, n, "stable")
+                ss.A = to_np(st["A"])
+                calls.append("ss.A = %s" % ratm(st["A"]))
+            elif op == "edit-inplace":
+                gens = []          # live generators hold references to the edited arrays
+                i_, j_ = rng.randrange(n), rng.randrange(n)
+                v = F(rng.randint(-2, 2), 16)
+                st["A"] = [list(r_) for r_ in st["A"]]
+                st["A"][i_][j_] += v
+                if ninf(st["A"]) >= 1:
+                    st["A"][i_][j_] -= v
+                    v = F(0)
+                ss.A[i_, j_] += float(v)
+                st["mu0"] = list(st["mu0"])
+                st["mu0"][i_] += F(1, 2)
+                ss.mu_0[i_, 0] += 0.5
+                st["S0"] = [list(r_) for r_ in st["S0"]]
+                st["S0"][i_][i_] += F(1, 4)
+                ss.Sigma_0[i_, i_] += 0.25
+                calls.append("in place: A[%d,%d]+=%s, mu_0[%d]+=1/2, Sigma_0[%d,%d]+=1/4" % (i_, j_, rat(v), i_, i_, i_))
+                # results handed out earlier that ALIAS the instance (see the counted findings) legitimately follow the edit
+                au.kept = [e_ for e_ in au.kept if not any(np.shares_memory(e_[1], o_) for _nm, o_ in obj_arrays())]
+                # ... and so do the constructor's inputs, which the instance keeps without copying
+                before = len(owned_all)
+                owned_all[:] = [e_ for e_ in owned_all if not (isinstance(e_[1], np.ndarray) and
+                                                               any(np.shares_memory(e_[1], o_) for _nm, o_ in obj_arrays()))]
+                if len(owned_all) != before:
+                    finding("lss_ctor_keeps_caller_arrays", "LinearStateSpace stores the caller's float arrays without copying: an "
+                            "in-place edit of ss.A / ss.mu_0 / ss.Sigma_0 edits the caller's arrays (and vice versa)", replay)
+            if not attrs_ok(calls[-1] if calls else op):
+                break
+            if not au.recheck(calls[-1] if calls else op):
+                break
+
+    # ---- hardening: random_state / method argument forms -----------------------------------------------------------
+    for i in range(ctx.n(12, 100)):
+        n, k, m, A, C, G, H, mu0, S0 = lss_random()
+        ss = mk_ss(A, C, G, H, mu0, S0)
+        seed = rng.randrange(2 ** 31)
+        ts = rng.randint(1, 5)
+        ref = ss.simulate(ts, random_state=Recording(seed))
+        kind = rng.choice(["int", "np.int64", "np.int32", "RandomState", "None+np.random.seed"])
+        ctx.count("scalarforms:random_state=" + kind)
+        if kind == "None+np.random.seed":
+            np.random.seed(seed)
+            got = ss.simulate(ts) if rng.random() < 0.5 else ss.simulate(ts, None)
+        else:
+            rs = {"int": seed, "np.int64": np.int64(seed), "np.int32": np.int32(seed % (2 ** 31 - 1)),
+                  "RandomState": np.random.RandomState(seed)}[kind]
+            if kind == "np.int32":
+                ref = ss.simulate(ts, random_state=Recording(int(rs)))
+            got = ss.simulate(ts, random_state=rs)
+        if not (np.array_equal(got[0], ref[0]) and np.array_equal(got[1], ref[1])):
+            ctx.spec_fail("random_state_forms", "simulate(random_state=%s) differs from the RandomState(seed) stream" % kind,
+                          {"op": "simulate-seed", "A": ratm(A), "C": ratm(C), "G": ratm(G), "seed": seed, "ts": ts, "kind": kind})
+        # a numpy Generator: the law must hold on its draws (same seed twice gives the same path)
+        g1 = ss.simulate(ts, random_state=np.random.default_rng(seed))
+        g2 = ss.replicate(2, 2, random_state=np.random.default_rng(seed))
+        g1b = ss.simulate(ts, random_state=np.random.default_rng(seed))
+        if g1[0].shape != (n, ts) or g2[0].shape != (n, 2) or not np.array_equal(g1[0], g1b[0]):
+            ctx.spec_fail("random_state_forms", "simulate/replicate with a numpy Generator", {"op": "simulate-generator", "seed": seed})
+
     changed = [lab for lab, o, sn in owned_all if snapshot(o) != sn]
+    reshaped = [lab for lab, o, sn in owned_all if isinstance(o, np.ndarray) and lab.split(":")[-1] in ("row2d", "introw2d") and o.shape[0] != 1]
+    if reshaped:
+        finding("input_reshaped_in_place", "a one-row 2-D array passed as mu_0 (LinearStateSpace) is reshaped to a column IN PLACE "
+                "(`self.mu_0.shape = n, 1` on the caller's own array; likewise x_hat in Kalman.set_state and y in "
+                "prior_to_filtered): %d objects" % len(reshaped), {"op": "aliasing", "objects": reshaped[:10]})
     if changed:
         ctx.spec_fail("lss_caller_modified", "LinearStateSpace / Kalman modified the caller's input objects: %s" % changed[:5],
                       {"op": "aliasing", "objects": changed[:20]})
